@@ -253,10 +253,14 @@ TEXT = {
                       "order; the table is invariant under permuting observations). C06_graph_rc_invariant: such tables induce the same good-link "
                       "relation (links never read a palindrome's extension byte), hence the same partition node by node. "
                       "C06_stranded_separation: stranded keys are exactly the k-mers as spelled and an entry records b on side d iff some read "
-                      "spells it there. Payload/adjacency equality of finished graphs and the sharded / re-compressed pipelines are evaluated on "
-                      "the crate's outputs for random masks, even and odd K.",
+                      "spells it there. Pipeline level: C06_direct_rc_invariant - for every read set, mask, threshold and any two hash orders the "
+                      "one-pass pipeline run on the reads and on the partly reverse-complemented reads never panics and yields the same "
+                      "partition of the k-mers into nodes (both are the classes of the key-level good-link relation of the pruned table, and good "
+                      "links never read the byte of a self-complementary k-mer: krel_contentW); C06_sharded_rc_invariant - the same for the "
+                      "sharded, combined and re-compressed pipeline, with or without sharded pruning, via C04_sharded_eq_direct. Payload and "
+                      "adjacency equality of the finished graphs are evaluated on the crate's outputs for random masks, even and odd K.",
         "design_ref": "DESIGN.md section 6, C06",
-        "level_note": COMMON_NOTE + "Partial: table/graph-level invariance by execution.",
+        "level_note": COMMON_NOTE + "Partial: payload/adjacency invariance of finished graphs by execution.",
         "technique": "Lean 4 proof (order algebra of canonical forms; permutation invariance of the filter; congruence of the link relation) + differential correspondence with executable predicate over masked read sets",
     },
     "C09": {
